@@ -9,9 +9,11 @@ EXPLANATION = (
     "runtime-state field must be read by the save function and written by the restore function from a value whose "
     "provenance includes the checkpoint parameter (a constant / default initialiser is reported). Variant coverage: every "
     "RuntimeOp variant whose payload holds runtime state must be handled in both Engine::create_checkpoint and "
-    "Engine::restore_checkpoint. Exceptions are one named field each with a reason."
+    "Engine::restore_checkpoint. Exceptions are one named field each with a reason. Faithful copy: no save or restore "
+    "function applies a reordering (sort*, reverse, rev, rotate, swap) or dropping (dedup*, retain, truncate, skip, take, "
+    "filter, pop) collection call: restored collections are the saved ones element for element and in order."
 )
-DECIDED = ["which runtime-state fields flow into the checkpoint and back", "which stateful operators the engine checkpoint dispatchers cover"]
+DECIDED = ["which runtime-state fields flow into the checkpoint and back", "which stateful operators the engine checkpoint dispatchers cover", "save / restore neither reorder nor drop elements of state collections"]
 NOT_DECIDED = ["that restored values reproduce behaviour", "sub-millisecond timestamps (decided under C20)"]
 
 R = "varpulis_runtime::"
